@@ -932,3 +932,30 @@ Qed.
 (* concrete primes for the non-vacuity example (computed by MathComp's prime test, mc/NtFacts.v) *)
 Lemma example_primes : prime 1031 /\ prime 1049 /\ 1031 <> 1049.
 Proof. split; [exact NtFacts.Zprime_1031 | split; [exact NtFacts.Zprime_1049 | discriminate]]. Qed.
+
+(* ---- plaintexts carried in a smaller ring Z_M, M <= N (e.g. curve scalars) ------------------------ *)
+
+Lemma pk_enc_ring_ok : forall N M m r c, pk_enc_ring N M m r = Some c -> 0 < M <= N /\ c = enc N m r.
+Proof.
+  intros N M m r c H. unfold pk_enc_ring in H.
+  destruct (0 <? M) eqn:E1; [|discriminate]. destruct (M <=? N) eqn:E2; [|discriminate].
+  cbn in H. inversion H. apply Z.ltb_lt in E1. apply Z.leb_le in E2. auto.
+Qed.
+
+Lemma pk_enc_ring_accepts : forall N M m r, 0 < M <= N -> pk_enc_ring N M m r = Some (enc N m r).
+Proof.
+  intros N M m r [H1 H2]. unfold pk_enc_ring.
+  replace (0 <? M) with true by (symmetry; apply Z.ltb_lt; lia).
+  replace (M <=? N) with true by (symmetry; apply Z.leb_le; lia). reflexivity.
+Qed.
+
+(* the encrypted value is the plaintext's value, whatever ring it was carried in *)
+Lemma decrypt_enc_ring : forall p q k M m r c, prime p -> prime q -> p <> q ->
+  precompute p q = Some k -> Z.gcd r (p * q) = 1 -> 0 <= m < M ->
+  pk_enc_ring (p * q) M m r = Some c -> decrypt k c = m /\ c = textbook (p * q) m r.
+Proof.
+  intros p q k M m r c Hp Hq Hne Hk Hg Hm H.
+  destruct (pk_enc_ring_ok _ _ _ _ _ H) as [HM ->]. split.
+  - apply decrypt_enc; try assumption. lia.
+  - apply enc_textbook; lia.
+Qed.
